@@ -56,6 +56,16 @@ def make_rule(name: str):
             r = op.Max(x, op.Constant(value_float=0.0))
             return r, op.Min(op.Neg(x), op.Constant(value_float=0.0))
         return P.RewriteRule(pat, rep, name=name)
+    if name == "outer_then_inner_outputs":
+        # the same two values returned OUTER first: both outputs hang below one output node (has_single_output_node)
+        def pat3(op, x):
+            r = op.Relu(x)
+            return op.Neg(r), r
+
+        def rep3(op, x):
+            r = op.Max(x, op.Constant(value_float=0.0))
+            return op.Min(op.Neg(x), op.Constant(value_float=0.0)), r
+        return P.RewriteRule(pat3, rep3, name=name)
     if name == "relu_neg_two_outputs_between":
         r_ = make_rule("relu_neg_two_outputs")
         r_.name = name
@@ -109,7 +119,7 @@ def make_rule(name: str):
 RULES = ["reemit_relu", "swap_add", "double_transpose", "neg_neg", "mul_one", "relu_neg_two_outputs", "sub_to_add_neg",
          "add_const_reassoc", "neg_neg_as_function", "relu_neg_keep_nodes", "mul_add_as_function",
          # multi-output patterns whose hosts put a consumer of the first output BETWEEN the matched output nodes
-         "relu_neg_two_outputs_between", "two_roots", "two_roots_between", "two_roots_second_first",
+         "relu_neg_two_outputs_between", "outer_then_inner_outputs", "two_roots", "two_roots_between", "two_roots_second_first",
          # replacements that return a pattern input itself
          "mul_one_passthrough", "neg_neg_passthrough",
          # a rule that keeps per-graph state through the graph_pre_visitor / graph_post_visitor hooks
@@ -143,6 +153,12 @@ def instance(rule: str, src: str, pfx: str, nodes: list, inits: list):
         nodes.append(oh.make_node("Neg", [n("r")], [n("nr")]))
         nodes.append(oh.make_node("Add", [n("r"), n("nr")], [n("s")]))  # both outputs used
         nodes.append(oh.make_node("Add", [n("s"), n("r")], [n("o")]))
+        return n("o"), []
+    if rule == "outer_then_inner_outputs":
+        nodes.append(oh.make_node("Relu", [src], [n("r")]))
+        nodes.append(oh.make_node("Abs", [n("r")], [n("c")]))       # consumer of the INNER output before the outer node
+        nodes.append(oh.make_node("Neg", [n("r")], [n("nr")]))
+        nodes.append(oh.make_node("Add", [n("c"), n("nr")], [n("o")]))
         return n("o"), []
     if rule == "relu_neg_two_outputs_between":
         nodes.append(oh.make_node("Relu", [src], [n("r")]))
